@@ -229,6 +229,7 @@ func (w *World) call(n *Node, what string, f func() error) (err error, panicked 
 		}
 	}()
 	n.calls++
+	engine.CurrentCall.Store(fmt.Sprintf("%s on node %d (%s)", what, n.idx, protoName[w.proto]))
 	err = f()
 	return
 }
